@@ -6,7 +6,8 @@ use serde_json::json;
 
 pub fn run(ctx: &Ctx) -> Report {
     let mut rep = Report::new("C12", "model_checking");
-    let template = Allocator::new().verif_fork();
+    // every worker builds its own start state: the harness must not require `Allocator: Sync` or `Send` (a change that
+    // adds interior mutability to the allocator would otherwise break the harness build instead of being judged)
     let plans: Vec<(&str, Alphabet, usize)> = if ctx.quick() {
         vec![("full alphabet", Alphabet::full(), 3), ("thinned alphabet", Alphabet::thin(), 4)]
     } else {
@@ -14,7 +15,7 @@ pub fn run(ctx: &Ctx) -> Report {
     };
     let mut per = vec![];
     for (name, al, depth) in plans {
-        let r = bfs(ctx, || St::new(template.verif_fork(), u32::MAX as usize), "new()", &al, depth, Modes::default(), 400_000_000);
+        let r = bfs(ctx, || St::new(Allocator::new(), u32::MAX as usize), "new()", &al, depth, Modes::default(), 400_000_000);
         rep.states += r.states;
         rep.transitions += r.transitions;
         per.push(json!({"alphabet": name, "depth": depth, "states": r.states, "transitions": r.transitions, "per_depth(new_states,transitions)": r.per_depth}));
@@ -29,7 +30,7 @@ pub fn run(ctx: &Ctx) -> Report {
         let depth = if ctx.quick() { 3 } else { 4 };
         let al2 = Alphabet::thin();
         let r = bfs(ctx, || {
-            let mut st = St::new(template.verif_fork(), u32::MAX as usize);
+            let mut st = St::new(Allocator::new(), u32::MAX as usize);
             let mut scratch = Acc::default();
             for op in &prefix {
                 let _ = step(&mut st, op, &al2, Modes::default(), &mut scratch);
